@@ -28,7 +28,7 @@ def gates(tier):
     return {'cheats_twin_credited': 2500, 'cheats_refused': 2500, 'honest_controls': 400,
             'restriction:blacklist': 100, 'restriction:blacklist:user_override': 15, 'restriction:whitelist': 150, 'restriction:whitelist_none': 100,
             'restriction:required': 100, 'restriction:forbidden': 150, 'restriction:instructor_var': 150,
-            'restriction:numbered': 100, 'restriction:removed_constant': 60, 'restriction:suffix': 80, 'restriction:name': 150,
+            'restriction:numbered': 100, 'restriction:removed_constant': 60, 'restriction:registered_defaults': 40, 'restriction:suffix': 80, 'restriction:name': 150,
             'restriction:sibling': 60, 'restriction:sibling_via_sampler': 60, 'aborted_parse_before_cheat': 30, 'restriction:sum_blacklist': 80, 'partial_credit_cheats': 200, 'restriction_combinations': 400, 'restricted_grader_as_subgrader': 300, 'resubmissions': 2000}
 
 
@@ -531,6 +531,44 @@ def run_sum(ctx):
                 ctx.violation('C09:sum:honest_answer_refused', repr(out.brief()), wit)
 
 
+def run_registered_restrictions(ctx):
+    """Restrictions that reach a grader through registered class defaults (docs/plugins.md): the one registered for the more
+    derived class is the one in force ("precedence is given to the registered defaults of higher level classes")."""
+    from mitxgraders import FormulaGrader, NumericalGrader, MatrixGrader
+    rng = ctx.rng
+    for rep in range(ctx.pick(6, 40)):
+        sub_cls, answer, honest, cheats = rng.choice([
+            (NumericalGrader, '0.5', '1/2', ['0.5+sin(0)', '0.5*cos(0)', '0.5+0*exp(1)']),
+            (MatrixGrader, '[1,2]', '[2,4]/2', ['[1,2*cos(0)]', '[1,2]+0*[sin(1),1]', '[1,2]*exp(0)'])])
+        loose, strict = rng.choice([({'whitelist': ['sin', 'cos', 'exp']}, {'whitelist': [None]}),
+                                    ({'blacklist': []}, {'blacklist': ['sin', 'cos', 'exp']}),
+                                    ({'forbidden_strings': []}, {'forbidden_strings': ['sin', 'cos', 'exp'], 'forbidden_message': 'NOPE'})])
+        regs = [(FormulaGrader, loose), (sub_cls, strict)]
+        rng.shuffle(regs)
+        try:
+            for cls, d in regs:
+                cls.register_defaults(dict(d))
+            g = sub_cls(answers=answer)
+            wit = {'grader': sub_cls.__name__, 'registered_on_FormulaGrader': loose, 'registered_on_' + sub_cls.__name__: strict}
+            judge_honest(ctx, 'registered_defaults', g, honest, wit)
+            for formula in cheats:
+                r = lib.call(ctx, g, None, formula)
+                ctx.ev()
+                ctx.count('restriction:registered_defaults')
+                ctx.nontrivial(['registered', sub_cls.__name__, formula, sorted(strict)])
+                w = dict(wit, formula=formula, restricted=r.brief())
+                if r.returned:
+                    ctx.violation('C09:registered_defaults:' + ('bypass_credited' if r.value['grade_decimal'] > 0 else 'graded_wrong_instead_of_rejected'),
+                                  'the restriction registered for %s was not in force: %r' % (sub_cls.__name__, r.value), w)
+                elif type(r.exc).__name__ != 'InvalidInput':
+                    ctx.violation('C09:registered_defaults:wrong_error_class', repr(r.exc)[:160], w)
+                else:
+                    ctx.count('cheats_refused')
+        finally:
+            for cls, _ in regs:
+                cls.clear_registered_defaults()
+
+
 def run(ctx):
     run_functions(ctx)
     run_required(ctx)
@@ -540,6 +578,8 @@ def run(ctx):
     run_sibling_sampler(ctx)
     run_siblings3(ctx)
     run_sum(ctx)
+    if ctx.shard % 4 == 3:
+        run_registered_restrictions(ctx)
     if ctx.shard == 0:
         ctx.sample({'restriction': 'blacklist=[sin]', 'answer': 'sin(x)^2', 'cheat': '(sin(x)^2)+0*(sin(1))',
                     'twin': 'credited', 'restricted': 'must raise InvalidInput'})
